@@ -118,7 +118,7 @@ def random_exec(rng, nops, big):
             busy = {v["path"] for k, v in objs.items() if v.get("open") and k != o}
             free = [q for q in (1, 2) if q not in busy]
             q = rng.choice(free); mm = rng.choice([1, 3, 4, 5, 6])
-            L.append("open %d %d %d" % (o, q, mm)); objs[o] = dict(open=True, path=q, mode=mm, pos=size[q] if mm == 5 else 0, lastio=None)     # reopen without close
+            L.append("%s %d %d %d" % (rng.choice(["open", "open", "construct"]), o, q, mm)); objs[o] = dict(open=True, path=q, mode=mm, pos=size[q] if mm == 5 else 0, lastio=None)     # reopen without close
             if mm == 4: size[q] = 0
         else:
             L.append("del %d" % o); del objs[o]
